@@ -40,6 +40,7 @@ func init() {
 }
 
 func runRelay(r *core.Run) {
+	gatewayLogsIn(r)
 	c := r.C
 	defer installReorder(r)()
 	if strings.HasPrefix(r.Cfg.Mode, "slot-sweep") {
